@@ -71,6 +71,14 @@ def gen_inputs(ctx):
         for base in ("", "1", "abc", "1z"):
             for pos in range(len(base) + 1):
                 out.append(("B58Dec", T(base[:pos] + ch + base[pos:]), ("dec-bad", ch in LOOKALIKE)))
+    # non-ASCII look-alikes of alphabet characters (fullwidth, mathematical, case-mapped: KELVIN SIGN -> k ...)
+    import unicodedata
+    for base in ("abc", "1z", "Kk2", "sS9"):
+        for pos in range(len(base)):
+            ch = base[pos]
+            for cp in (0xff00 + ord(ch) - 0x20, 0x212a if ch in "Kk" else 0x17f if ch in "sS" else 0x2460):
+                t = base[:pos] + chr(cp) + base[pos + 1:]
+                out.append(("B58Dec", T(t), ("dec-bad-unicode", unicodedata.normalize("NFKC", chr(cp)).lower() == ch.lower())))
     # checksummed decoder: mutations of valid encodings
     valids = []
     payload_specs = [(0x00, 20), (0x05, 20), (0x6f, 20), (0xc4, 20), (0x80, 32), (0x80, 33), (0xef, 33),
@@ -106,6 +114,12 @@ def gen_inputs(ctx):
             out.append(("B58DecCheck", T(s[:p] + s[p + 1:]), ("chk-del", p == 0)))
         for k in (1, 2, 5):
             out.append(("B58DecCheck", T("1" * k + s), ("chk-1prefix", k)))
+        # one character replaced by its fullwidth twin / a case-mapped relative
+        for p in (rng.sample(range(len(s)), min(len(s), 4 if q else 12))):
+            tw = chr(0xff00 + ord(s[p]) - 0x20)
+            out.append(("B58DecCheck", T(s[:p] + tw + s[p + 1:]), ("chk-unicode-twin",)))
+            if s[p] in "kK":
+                out.append(("B58DecCheck", T(s[:p] + "\u212a" + s[p + 1:]), ("chk-unicode-kelvin",)))
         for k in range(0, 7):
             out.append(("B58DecCheck", T(s[:k]), ("chk-trunc", k)))
         # swap two characters, double substitution
